@@ -1541,9 +1541,9 @@ func (is *iterScanner) Scan(dest ...interface{}) error {
 	// slices of dest
 	i := 0
 	var err error
-	for _, col := range iter.meta.columns {
+	for ci, col := range iter.meta.columns {
 		var n int
-		n, err = scanColumn(is.cols[i], col, dest[i:])
+		n, err = scanColumn(is.cols[ci], col, dest[i:])
 		if err != nil {
 			break
 		}
